@@ -1,14 +1,17 @@
 import Driver.WT
+import Driver.Adm
 /- Line-protocol oracle: one op per input line, one canonical answer per
    output line. The first token selects the model family. -/
 open Driver
 
 structure St where
   wt : WTState := {}
+  adm : AdmState := {}
 
 def step (s : St) (line : String) : St × String :=
   match (line.trimAscii.toString.splitOn " ").filter (· ≠ "") with
   | "wt" :: rest => let (w, o) := wtStep s.wt rest; ({ s with wt := w }, o)
+  | "adm" :: rest => let (a, o) := admStep s.adm rest; ({ s with adm := a }, o)
   | _ => (s, "bad-op")
 
 partial def loop (h : IO.FS.Stream) (out : IO.FS.Stream) (s : St) : IO Unit := do
